@@ -198,3 +198,11 @@ const (
 )
 
 func bit(i uint) uint64 { return 1 << i }
+
+// Nodes0Pos returns the position of the first node of a block (or the function start).
+func (f *fn) blockPos(b *flow.Block) token.Pos {
+	if len(b.Nodes) > 0 {
+		return b.Nodes[0].Pos()
+	}
+	return f.Decl.Pos()
+}
